@@ -386,8 +386,19 @@ where
                     rot.rotate_left(pos.len() / 2);
                     vec![r, rot]
                 };
-                for o in orders {
-                    positive(out, hname, t, &o, false);
+                let sorted_nodes = t.tree.prove_batch(&pos).map(|p| p.nodes.iter().map(|v| v.len()).sum::<usize>()).ok();
+                for (oi, o) in orders.iter().enumerate() {
+                    if let Some(proof) = positive(out, hname, t, o, false) {
+                        // the opening of a permuted list is as small as the opening of the sorted list
+                        let nn: usize = proof.nodes.iter().map(|v| v.len()).sum();
+                        if Some(nn) != sorted_nodes {
+                            out.violation(format!("{hname}: batch opening of a permuted position list carries a different number of nodes than the opening of the sorted list"), json!({"leaves": t.leaves.len(), "positions": o, "nodes": nn, "nodes_sorted": sorted_nodes}));
+                        }
+                        // forgeries against permuted lists: every order of up to 3 positions, three orders of larger lists
+                        if o.len() <= 3 || oi < 3 {
+                            negative(out, hname, t, o, &proof);
+                        }
+                    }
                 }
                 if pos.len() == 1 {
                     single_negative(out, hname, t, pos[0]);
@@ -496,7 +507,7 @@ fn main() {
         kit::engine::die("merkle binary serves C10 only");
     }
     let run = Run::new(args, "exploration");
-    run.rule("trees of 2,4,8,16 leaves: every non-empty position subset (65535 for 16 leaves) with every order of subsets of size <= 4 and two orders of larger ones; deeper trees (32..1024 leaves): all singletons and pairs, all contiguous runs, 64 seed-derived sets of up to 255 positions; for every opening of the exhaustive trees every single-element mutation (each leaf, each node) and every shape mutation (node deleted / duplicated / appended / moved, node vector or leaf added / removed, depth -1,+1,0,62..65,255, positions replaced / out of range / duplicated / added / dropped / swapped / empty / 256, wrong root); single paths: each element replaced / removed, appended, truncated to 0/1, every other index, out-of-range indexes; Blake3_256 exhaustively to 16 leaves, the other five hashers to 8 leaves; a case is non-trivial when the honest opening was produced and verified (distinct by enumeration index)");
+    run.rule("trees of 2,4,8,16 leaves: every non-empty position subset (65535 for 16 leaves) with every order of subsets of size <= 4 and two orders of larger ones; deeper trees (32..1024 leaves): all singletons and pairs, all contiguous runs, 64 seed-derived sets of up to 255 positions; for every opening of the exhaustive trees (sorted list, every order of up to 3 positions, up to three orders of larger lists) every single-element mutation (each leaf, each node) and every shape mutation (node deleted / duplicated / appended / moved, node vector or leaf added / removed, depth -1,+1,0,62..65,255, positions replaced / out of range / duplicated / added / dropped / swapped / empty / 256, wrong root); single paths: each element replaced / removed, appended, truncated to 0/1, every other index, out-of-range indexes; Blake3_256 exhaustively to 16 leaves, the other five hashers to 8 leaves; a case is non-trivial when the honest opening was produced and verified (distinct by enumeration index)");
     run.assume("hash functions are collision-free on the harness' distinct leaves; the canonical opening for (tree, positions) is the value prove_batch returns, whose sufficiency is established by naive recomputation (verify, into_paths == naive paths)");
     let thorough = run.tier().is_thorough();
     let mut subs = vec![];
